@@ -139,6 +139,12 @@ def run(chk, tier):
         if a == "List" and m:
             E = norm_usize(m.group(1))
             guard = conds.get("Ge(%s, Vec::len(a.List.0))" % E)
+            if guard is None:
+                # the same test written the other way round (`i < len`, e.g. through slice::get): in range exactly when it is true
+                lt_ = conds.get("Lt(%s, Vec::len(a.List.0))" % E)
+                gt_ = conds.get("Gt(Vec::len(a.List.0), %s)" % E)
+                le_ = conds.get("Le(Vec::len(a.List.0), %s)" % E)
+                guard = 0 if (lt_ == 1 or gt_ == 1 or le_ == 0) else (1 if (lt_ == 0 or gt_ == 0 or le_ == 1) else None)
             kind = None
             if E == "as usize(b.UInt.0)" and b == "UInt":
                 kind = "uint"
